@@ -28,7 +28,7 @@ ASSUMPTIONS = ['checksum values are opaque (the reader does not verify them)',
                'a file consisting of the label only is excluded (documented as unsupported)']
 SHARDS = {'quick': 4, 'thorough': 16}
 REQUIRED_CLASSES = {'record-spans>=2-visible-records': 1, 'segment-with-padding': 1, 'segment-with-checksum': 1,
-                    'segment-with-trailing-length': 1, 'zero-length-payload': 1, 'encrypted-record': 1, 'encrypted-segment-with-padding': 1, 'encrypted-segment-with-encryption-packet': 1, 'middle-segment-with-every-attribute-bit-set': 1, 'visible-record-of-20-bytes': 1,
+                    'segment-with-trailing-length': 1, 'zero-length-payload': 1, 'encrypted-record': 1, 'encrypted-segment-with-padding': 1, 'encrypted-segment-with-encryption-packet': 1, 'middle-segment-with-every-attribute-bit-set': 1, 'middle-segment-without-payload': 1, 'visible-record-of-20-bytes': 1,
                     'visible-record-of-16384-bytes': 1,
                     'sul-number-with-0-digit': 1, 'several-records-in-one-visible-record': 1,
                     'reread:second-pass': 1, 'reread:pass-after-other-operation': 1}
@@ -53,6 +53,7 @@ def classify(cc, case, model):
     cc.cls('encrypted-record', any(r['encrypted'] for r in recs))
     cc.cls('encrypted-segment-with-padding', any(r['encrypted'] and any(s['pad'] for s in l) for r, l in zip(recs, lays)))
     cc.cls('encrypted-segment-with-encryption-packet', any(s.get('enc_packet') for l in lays for s in l))
+    cc.cls('middle-segment-without-payload', any(len(l) >= 3 and any(s['n'] == 0 for s in l[1:-1]) for l in lays))
     cc.cls('middle-segment-with-every-attribute-bit-set', any(
         r['eflr'] and r['encrypted'] and any(s.get('enc_packet') and s['checksum'] and s['trailing'] and s['pad'] for s in l[1:-1]) for r, l in zip(recs, lays)))
     cc.cls('visible-record-of-20-bytes', any(v[1] == 20 for m in model['records'] for v in m['vrs']))
